@@ -31,8 +31,9 @@ func bytesReader(b []byte) io.Reader { return bytes.NewReader(b) }
 // ---- lnd log capture (diagnostics only, never hashed) ----------------------------
 
 type zzRing struct {
-	mu    sync.Mutex
-	lines []string
+	mu       sync.Mutex
+	lines    []string
+	spurious string // last "response for an HTLC already resolved" line
 }
 
 var zzLog = &zzRing{}
@@ -44,9 +45,26 @@ var zzLog = &zzRing{}
 // WITHOUT that event is something else and must be reported.
 var zzSawFwdShutdown atomic.Bool
 
+// zzSpuriousResponses counts lnd's own report that a settle or fail reached an
+// incoming link for an HTLC its channel no longer knows ("unable to settle /
+// cancel incoming HTLC ... No HTLC with ID"): a settle or fail was delivered
+// to the incoming channel for an HTLC that already had its response. lnd
+// drops it there (cleanupSpuriousResponse), nothing reaches the wire; C07
+// nevertheless states "at most one settle-or-fail per HTLC is delivered back
+// to the incoming channel", and on the unchanged tree no simulated run ever
+// produced one, so it is judged (second-response-delivered).
+var zzSpuriousResponses atomic.Int64
+
 func (w *zzRing) Write(p []byte) (int, error) {
 	if bytes.Contains(p, []byte("failed to forward packet")) && bytes.Contains(p, []byte("link shutting down")) {
 		zzSawFwdShutdown.Store(true)
+	}
+	if (bytes.Contains(p, []byte("unable to settle incoming HTLC")) || bytes.Contains(p, []byte("unable to cancel incoming HTLC"))) &&
+		bytes.Contains(p, []byte("No HTLC with ID")) {
+		zzSpuriousResponses.Add(1)
+		zzLog.mu.Lock()
+		zzLog.spurious = strings.TrimRight(string(p), "\n")
+		zzLog.mu.Unlock()
 	}
 	w.mu.Lock()
 	w.lines = append(w.lines, strings.TrimRight(string(p), "\n"))
@@ -227,8 +245,18 @@ func (s *zzSim) checkForwardLockedIn(c zzDeferred) {
 
 // ---- wind-down and final oracles -------------------------------------------------------
 
+func (s *zzSim) checkSpurious() {
+	if n := zzSpuriousResponses.Load(); n > 0 {
+		zzLog.mu.Lock()
+		line := zzLog.spurious
+		zzLog.mu.Unlock()
+		s.r.Fail("second-response-delivered", "%d time(s) a settle or fail was delivered to an incoming link for an HTLC that already had its response (the link found no such HTLC and dropped it); last: %s", n, line)
+	}
+}
+
 func (s *zzSim) finish() {
 	r := s.r
+	s.checkSpurious()
 	s.windDown = true
 	bob := s.nodes[zzB]
 	bob.kv.Disarm()
@@ -531,6 +559,7 @@ func (s *zzSim) finalChecks() {
 		}
 	}
 
+	s.checkSpurious()
 	zzL(r, "final: %d payments, %d succeeded (%d forwarded ok, %d forwarded failed), fees %d", len(s.pays), nSucc, nFwdSucc, nFwdFail, fees)
 	if nFwdSucc > 0 {
 		r.Count("probe_forward_success")
